@@ -108,7 +108,7 @@ var (
 	e1Chans   = []string{"#a", "#A", "#b", "#Chaos", "#chaos", "#k", "#x"}
 	e1BadChan = []string{"", "#", "&loc", "a", "#a b", "#toolongchannelname-0123456789012345678901234567890", "#a\x07"}
 	e1Keys    = []string{"k1", "k2", "", "k1 "}
-	e1SvcNick = []string{"ChanServ", "NickServ", "OperServ", "BotServ", "Enforcer"}
+	e1SvcNick = []string{"ChanServ", "NickServ", "OperServ", "BotServ", "Enforcer", "mallory", "eve"} // the last two are ordinary nicknames a client may take once the bot is gone
 	e1Texts   = []string{"hello", "hi there", ":)", "", " ", "a\rQUIT :x", "x\x00y", strings.Repeat("A", 600), "ünïcödé " + strings.Repeat("é", 260), ":lead", "\x01ACTION waves\x01"}
 	e1Addrs   = []string{"", "10.0.0.1", "10.0.0.2", "192.0.2.7", "2001:db8::1"}
 )
@@ -549,6 +549,25 @@ func (e1Engine) Generate(seed uint64, prop, tier string) (json.RawMessage, error
 		}
 		add(e1Step{K: "line", S: b, Data: "PRIVMSG " + c + " :am I in?"})
 	}
+	// snippet: a services bot with an ordinary nickname sits on a channel and leaves; a client takes the nickname
+	botLeaves := func() {
+		if svc < 0 || nsess < 3 {
+			return
+		}
+		a, b := g.Intn(nsess), g.Intn(nsess)
+		if a == b || a == svc || b == svc {
+			return
+		}
+		bot := g.Pick([]string{"mallory", "eve"})
+		c := g.Pick(e1Chans)
+		add(e1Step{K: "line", S: a, Data: "JOIN " + c})
+		add(e1Step{K: "line", S: svc, Svc: true, Data: fmt.Sprintf("NICK %s 1 1422134861 services localhost.net services.localhost.net 0 :bot", bot)})
+		add(e1Step{K: "line", S: svc, Svc: true, Data: ":" + bot + " JOIN " + c})
+		add(e1Step{K: "line", S: svc, Svc: true, Data: g.Pick([]string{":" + bot + " QUIT :bye", ":" + bot + " PART " + c, ":" + bot + " QUIT"})})
+		add(e1Step{K: "line", S: b, Data: "NICK " + bot})
+		add(e1Step{K: "line", S: a, Data: "PRIVMSG " + c + " :who is listening?"})
+		add(e1Step{K: "line", S: a, Data: "TOPIC " + c + " :new topic"})
+	}
 	// snippet: several members on one channel, a membership-changing event, then channel and private traffic
 	chatter := func() {
 		if nsess < 3 {
@@ -600,6 +619,8 @@ func (e1Engine) Generate(seed uint64, prop, tier string) (json.RawMessage, error
 			sessionBan()
 		case r >= 563 && r < 571:
 			captchaGate()
+		case r >= 571 && r < 577:
+			botLeaves()
 		case r >= 500 && r < 540:
 			chatter()
 		case r >= 540 && r < 555:
@@ -627,6 +648,10 @@ func (e1Engine) Generate(seed uint64, prop, tier string) (json.RawMessage, error
 				add(st)
 			} else if s != svc {
 				l, c := clientLine(g)
+				if g.Chance(1, 20) && !strings.HasPrefix(l, ":") {
+					// a client may name a sender: its own nickname (RFC 2812 2.3) or, hostile, somebody else's
+					l = ":" + g.Pick([]string{"{nicka}", "{nickb}", "{nickb}", "ChanServ", "robustirc.net", "{nickb}!u@robust/0x1"}) + " " + l
+				}
 				st := e1Step{K: "line", S: s, Data: l, Captcha: c}
 				if g.Chance(1, 6) {
 					st.Addr = g.Pick(e1Addrs)
